@@ -227,7 +227,6 @@ theorem no_trigger_when_repaired (api : Api) (cfg : Cfg) (x : RankInput) : ¬ Tr
   · rintro ⟨_, _, h⟩
     unfold skipsSync zeroJoins Repairs.all at h
     cases hc : x.cls <;> rw [hc] at h <;> simp at h
-    split at h <;> simp at h
   all_goals simp [Repairs.all]
 
 /-- with the three repairs the property holds as written -/
